@@ -158,12 +158,13 @@ func checkBeaconFees(ctx sdk.Context, tx sdk.FeeTx, bk BeaconKeeper) error {
 	}
 
 	totalFees := sdk.Coins{expectedFees}
-	if tx.GetFee().IsAllLT(totalFees) {
+	sentFee := tx.GetFee().AmountOf(expectedFeeDenom)
+	if sentFee.LT(expectedFees.Amount) {
 		errMsg := fmt.Sprintf("insufficient fee to pay for beacon tx. numMsgs in tx: %v, expected fees: %v, sent fees: %v", numMsgs, totalFees.String(), tx.GetFee())
 		return sdkerrors.Wrap(exported.ErrInsufficientBeaconFee, errMsg)
 	}
 
-	if tx.GetFee().IsAllGT(totalFees) {
+	if sentFee.GT(expectedFees.Amount) {
 		errMsg := fmt.Sprintf("too much fee sent to pay for beacon tx. numMsgs in tx: %v, expected fees: %v, sent fees: %v", numMsgs, totalFees.String(), tx.GetFee())
 		return sdkerrors.Wrap(exported.ErrTooMuchBeaconFee, errMsg)
 	}
